@@ -29,10 +29,18 @@ CLAIMED = {
                 text="Seeded search over FASTA files (1..8 records, any wrap width, full/short/one-base last lines, descriptions, CRLF and missing final newline at low weight) on simulated storage; index built by the library under a small chunk knob (multi-chunk offset accumulation) or supplied by an independent faidx model; every interval of short records enumerated, line-break-biased intervals sampled; .fai rows, whole contigs, interval batches (plain and string-encoded fast path), contig lengths and the Genome.from_file route compared with the model. One-shot EIO in a minority of runs.",
                 note="Trusts bnpsim/models/fai.py (cross-checked against the shipped small_genome.fa.fai) and SimFS.",
                 tech=TECH + "chunk-knob-perturbed index construction + random-access seek/read over SimFS + one-shot EIO; substring oracle from an independent faidx model"),
+    "C03": dict(engine="iosim", cat="exploration", ref="§4 C03",
+                text="Seeded search over write histories: rows of an in-memory table (all entry types the property lists, FASTA lengths around multiples of the wrap width) cut into pieces and written by successive write(table) / write(stream of pieces) calls, with close + reopen-append at piece boundaries, plain or gzip target, an interleaved second writer, and a one-shot EIO on a write. Oracles: prefix consistency after every step, final bytes == one write of the whole table (header exactly once), canonical layout per the reference model, read-back == table.",
+                note="Float text compared by value (rel 1e-6); an empty SAM optional-tags column may be written with or without a trailing tab; typed-INFO VCF tables are not generated (writing them raises, which is not silent).",
+                tech=TECH + "writer actors with restart (close/reopen-append) and EIO faults over SimFS; prefix-consistency invariant + single-write refinement oracle"),
+    "C11": dict(engine="streamsim", cat="exploration", ref="§4 C11",
+                text="Seeded search where the schedule is the cut set: for datasets of n <= 8 (quick) / 10 (thorough) entries all 2^(n-1) chunkings are enumerated per sampled dataset and computation (49 computations: mean/bincount/quantile/histogram, k-mer counts, groupby, chunk_entries/chunk_lines, streamable user functions, per-chromosome genomic pipelines evaluated with bnp.compute in single/tuple/dict form), in-memory streams and file-backed streams (read_chunks(k) over SimFS); streamed result must equal the same public function on the concatenated table. Cancel and EIO faults in ~12% of runs.",
+                note="Reference = bionumpy's own in-memory result; shapes whose in-memory reference raises are counted inconclusive; histogram with data-dependent edges and ragged axis-0 means are not judged.",
+                tech=TECH + "exhaustive cut-set schedule per sampled dataset + file-level chunk sizes + cancel/EIO faults; streamed == in-memory oracle"),
 }
 
 _P = "check designed in DESIGN.md (simulated) but not built yet at this commit; not claimed until its check exists"
-PENDING = {k: _P for k in ["C03", "C04", "C05", "C11", "C16", "C20"]}
+PENDING = {k: _P for k in ["C04", "C05", "C16", "C20"]}
 
 NOT_APPLICABLE = {
     "C06": "pure function of (byte, alphabet): no storage, stream, history or shared state, so no scheduler or fault decision can change the outcome (DESIGN §4 C06)",
